@@ -18,7 +18,7 @@ C05_MODULES = ["contracts.core_models", "contracts.c09_arith", "contracts.c09_bo
 
 C13_MODULES = ["contracts.core_models", "contracts.c09_bounded", "contracts.c13_types", "contracts.c13_views", "contracts.c13_array"]
 
-C06_MODULES = C05_MODULES + ["contracts.c13_types", "contracts.c13_views", "contracts.c06_names", "contracts.c06_ports", "contracts.c06_stmts", "contracts.c06_literals", "contracts.c02_ops"]
+C06_MODULES = C05_MODULES + ["contracts.c13_types", "contracts.c13_views", "contracts.c06_names", "contracts.c06_ports", "contracts.c06_stmts", "contracts.c06_literals", "contracts.c02_ops", "contracts.c06_sensitivity", "contracts.c03_refvisit"]
 
 C02_MODULES = C05_MODULES + ["contracts.c13_types", "contracts.c13_views", "contracts.c02_ops", "contracts.c02_frontend", "contracts.c02_replace", "contracts.c02_assembler", "contracts.c03_lowering"]
 
@@ -198,7 +198,7 @@ PROPERTIES = {
         ],
     },
     "C11": {
-        "modules": ["contracts.core_models", "contracts.c11_frames"],
+        "modules": ["contracts.core_models", "contracts.c11_frames", "contracts.c06_sensitivity"],
         "level": "proof",
         "explanation": "per-item reasons why compilation is history independent: (1) exception-safe frames -- the real bodies of the functions that set global scratch state (statemachine singleton, block stack, entity instantiation info) are executed symbolically with every uncontracted callee returning OR raising, and on every exit the state is proved restored; (2) Entity._library_declaration is proved to emit library clauses in order of first use without iterating a set of strings; (3) a mechanical, exhaustive inventory of every module/class-level state written from a function, each item classified (scratch / cache / registry / per-entity), an unclassified item makes the check undecided; (4) bounded stand-in: compile histories of length <= 2 over a pool of accepted and rejected designs and several hash seeds must give byte-identical output",
         "assumptions": COMMON_ASSUME + [
